@@ -635,7 +635,8 @@ int main(int argc, char **argv) {
             // hashed irregular keys (duplicates, power-of-two gaps, jumps) for every n in 9..400
             for (size_t e : std::vector<size_t>{1, 2, 8}) for (long n0 = 9; n0 < (thorough ? 1000 : 400); n0 += 49) { Task t; t.key = k; t.kind = 7; t.eps = e; t.w_lo = n0; t.w_hi = std::min<long>(n0 + 49, thorough ? 1000 : 400); tasks.push_back(t); }
             // two runs meeting just before a chunk end
-            for (long pp : (thorough ? std::vector<long>{2, 3, 5, 20} : std::vector<long>{2, 20})) for (long j : {0L, pp - 2}) { Task t; t.key = k; t.kind = 6; t.eps = 1; t.n = 32768; t.p = pp; t.seam = j; tasks.push_back(t); }
+            for (size_t e6 : {size_t(1), size_t(0)})   // epsilon 0 through the chunked builder as well
+            for (long pp : (thorough ? std::vector<long>{2, 3, 5, 20} : std::vector<long>{2, 20})) for (long j : {0L, pp - 2}) { Task t; t.key = k; t.kind = 6; t.eps = e6; t.n = 32768; t.p = pp; t.seam = j; tasks.push_back(t); }
             // a history of builds with changing thread counts inside one process
             for (long w : {0L, 1365L, 2730L}) { Task t; t.key = k; t.kind = 4; t.eps = 1; t.n = 32768; t.w_lo = w; tasks.push_back(t); }
             // below the chunking threshold the builder must stay sequential whatever the thread count
